@@ -472,3 +472,119 @@ Proof.
   assert (c1 = cl); [|subst c1; exact Hna].
   apply (nodup_slot_eq (sv_clients (g_srv g))); [exact (gv_slots g Hg)|exact Hc1|exact Hcl|lia].
 Qed.
+
+(* ================= 8. the policy decides the kind of ClientVisibility ================= *)
+
+Lemma vis_kind_new c : vis_kind (cfg_policy c) (new_vis c).
+Proof. unfold new_vis. destruct (cfg_policy c); reflexivity. Qed.
+
+Lemma is_whitelist_mid s v : is_whitelist (mid_vis s v) = is_whitelist v.
+Proof.
+  unfold mid_vis. pose proof (is_whitelist_drain_lost v) as H1.
+  destruct (despawn_loop (fst (drain_lost v)) (sv_despawn_buf s)) as [v2 ds] eqn:E.
+  exact (proj1 (despawn_loop_spec _ _ _ _ _ H1 E)).
+Qed.
+
+Lemma vis_kind_same p vo vo' :
+  match vo, vo' with Some v, Some v' => is_whitelist v' = is_whitelist v | None, None => True | _, _ => False end ->
+  vis_kind p vo -> vis_kind p vo'.
+Proof. destruct p, vo as [v|], vo' as [v'|]; cbn; try tauto; congruence. Qed.
+
+Lemma clients_kind_same c s s' : Forall2 cl_same (sv_clients s) (sv_clients s') -> clients_kind c s -> clients_kind c s'.
+Proof.
+  intros HF Hk cl' Hin Ha. destruct (Forall2_In_r _ _ _ _ HF Hin) as [cl [Hcl [_ [S2 [S3 _]]]]].
+  rewrite S3. apply (Hk cl Hcl). congruence.
+Qed.
+
+Lemma clients_kind_ext c s s' : sv_clients s' = sv_clients s -> clients_kind c s -> clients_kind c s'.
+Proof. intros H Hk cl Hin. rewrite H in Hin. exact (Hk cl Hin). Qed.
+
+Lemma clients_kind_update c s n : clients_kind c s ->
+  (sc_authorized n = true -> vis_kind (cfg_policy c) (sc_vis n)) -> clients_kind c (update_client s n).
+Proof.
+  intros Hk Hn cl Hin Ha. cbn [update_client set_clients sv_clients] in Hin. apply in_map_iff in Hin.
+  destruct Hin as [c0 [Heq Hc0]]. destruct (sc_slot c0 =? sc_slot n); subst cl; [exact (Hn Ha)|exact (Hk c0 Hc0 Ha)].
+Qed.
+
+Lemma apply_sop_kind c s op : clients_kind c s -> clients_kind c (apply_sop s op).
+Proof.
+  intros Hk. pose proof (apply_sop_clients s op) as Hcl.
+  destruct op as [e marker comps|e|e k v|e k|e k v|e|e|slot e visible|slot e pc];
+    try (apply (clients_kind_ext c s); [exact Hcl|exact Hk]); clear Hcl; unfold apply_sop.
+  - destruct (find_client s slot) as [c0|] eqn:Ef; [|exact Hk]. destruct (get_ent s e); [|exact Hk].
+    destruct (sc_vis c0) as [v|] eqn:Ev; [|exact Hk].
+    unfold find_client in Ef. apply find_some in Ef. destruct Ef as [Hc0 _].
+    apply clients_kind_update; [exact Hk|]. cbn [sc_authorized sc_vis]. intros Ha.
+    apply (vis_kind_same _ (Some v)); [apply is_whitelist_set_visibility|]. rewrite <- Ev. exact (Hk c0 Hc0 Ha).
+  - destruct (find_client s slot) as [c0|] eqn:Ef; [|exact Hk]. destruct (get_ent s e); [|exact Hk].
+    destruct (sc_authorized c0 && existsb _ (sv_premap s)) eqn:Ec; [|exact Hk].
+    apply andb_prop in Ec. destruct Ec as [Ha0 _].
+    unfold find_client in Ef. apply find_some in Ef. destruct Ef as [Hc0 _].
+    apply clients_kind_update; [exact Hk|]. cbn [sc_authorized sc_vis]. intros _. exact (Hk c0 Hc0 Ha0).
+Qed.
+
+Lemma fold_apply_sop_kind c ops : forall s, clients_kind c s -> clients_kind c (fold_left apply_sop ops s).
+Proof. induction ops as [|op ops IH]; intros s Hk; cbn [fold_left]; [exact Hk|]. apply IH, apply_sop_kind, Hk. Qed.
+
+Lemma send_kind c s parts : clients_kind c s ->
+  forall cl', In cl' (map fst (map (client_result_pure c s parts) (sv_clients s))) -> sc_authorized cl' = true ->
+    vis_kind (cfg_policy c) (sc_vis cl').
+Proof.
+  intros Hk cl' Hin Ha. rewrite map_map in Hin. apply in_map_iff in Hin. destruct Hin as [cl [<- Hin]].
+  unfold client_result_pure in *. destruct (sc_authorized cl) eqn:Ea; cbn [fst] in *; [|congruence].
+  specialize (Hk cl Hin Ea). cbn [sfc_pure fst sc_vis]. destruct (sc_vis cl) as [v|] eqn:Ev.
+  - rewrite (sv_vis1 s cl v Ev). apply (vis_kind_same _ (Some v)); [|exact Hk].
+    rewrite is_whitelist_update. apply is_whitelist_mid.
+  - rewrite (nv_vis1 s cl Ev). exact Hk.
+Qed.
+
+Lemma server_frame_kind c s tick dt (cleanup : bool) ops parts s' fo :
+  clients_kind c s -> server_frame c s tick dt cleanup ops parts = Ok (s', fo) -> clients_kind c s'.
+Proof.
+  intros Hk H. unfold server_frame in H.
+  set (s1 := with_time_tick s tick dt) in *.
+  assert (Hk1 : clients_kind c s1) by exact Hk.
+  set (s2 := if sv_running s1 then (let r := receive_acks s1 in if cleanup then cleanup_acks c r else r) else s1) in *.
+  assert (Hk2 : clients_kind c s2).
+  { unfold s2. destruct (sv_running s1); [|exact Hk1]. cbv zeta.
+    assert (Hr : clients_kind c (receive_acks s1)) by (apply (clients_kind_same c s1); [apply receive_acks_same|exact Hk1]).
+    destruct cleanup; [|exact Hr]. apply (clients_kind_same c (receive_acks s1)); [apply cleanup_acks_same|exact Hr]. }
+  pose proof (fold_apply_sop_kind c ops s2 Hk2) as Hk3. set (s3 := fold_left apply_sop ops s2) in *.
+  destruct (sv_running s3).
+  - assert (Hk4 : clients_kind c (buffer_removals s3)) by exact Hk3.
+    destruct (sv_dirty (buffer_removals s3)).
+    + rewrite send_replication_eq in H. cbn [bind] in H. injection H as <- _.
+      intros cl' Hin Ha. exact (send_kind c (buffer_removals s3) parts Hk4 cl' Hin Ha).
+    + cbn [bind] in H. injection H as <- _. exact Hk4.
+  - cbn [bind] in H. injection H as <- _. destruct (sv_last_running s3); [intros cl []|exact Hk3].
+Qed.
+
+Theorem gstep_kind c g o g' : clients_kind c (g_srv g) -> gstep c g o = Ok g' -> clients_kind c (g_srv g').
+Proof.
+  intros Hk H. destruct o; cbn [gstep] in H.
+  - injection H as <-. exact Hk.
+  - injection H as <-. exact Hk.
+  - injection H as <-. cbn [g_srv]. unfold connect_client. destruct (sv_running (g_srv g)); [|exact Hk].
+    destruct (find_client (g_srv g) slot); [exact Hk|].
+    intros cl Hin Ha. cbn [set_clients sv_clients] in Hin. apply in_app_or in Hin. destruct Hin as [Hin | [<- | []]]; [exact (Hk cl Hin Ha)|].
+    destruct (cfg_auth c); cbn [authorized_client sc_authorized sc_vis] in *; try discriminate; apply vis_kind_new.
+  - injection H as <-. cbn [g_srv]. unfold authorize_client. destruct (find_client (g_srv g) slot) as [cl|]; [|exact Hk].
+    destruct (sc_authorized cl); [exact Hk|]. apply clients_kind_update; [exact Hk|]. intros _. apply vis_kind_new.
+  - injection H as <-. cbn [g_srv]. intros cl Hin Ha. cbn [disconnect_client sv_clients] in Hin.
+    apply filter_In in Hin. exact (Hk cl (proj1 Hin) Ha).
+  - injection H as <-. cbn [g_srv]. unfold deliver_acks. destruct (sv_running (g_srv g)); [|exact Hk].
+    destruct (find_client (g_srv g) slot); exact Hk.
+  - injection H as <-. exact Hk.
+  - destruct (server_frame c (g_srv g) tick dt cleanup ops parts) as [[s' fo]| |] eqn:Ef; cbn [bind] in H; try discriminate.
+    injection H as <-. exact (server_frame_kind c _ tick dt cleanup ops parts s' fo Hk Ef).
+Qed.
+
+(* in a run every authorized client carries the ClientVisibility of the configured policy:
+   none (PAll), a blacklist (PBlack), a whitelist (PWhite) *)
+Theorem run_clients_kind c steps : forall g g', clients_kind c (g_srv g) -> grun c g steps = Ok g' -> clients_kind c (g_srv g').
+Proof.
+  induction steps as [|o l IH]; intros g g' Hk H; cbn [grun] in H.
+  - injection H as <-. exact Hk.
+  - destruct (gstep c g o) as [g1| |] eqn:E; cbn [bind] in H; try discriminate.
+    apply (IH g1 g'); [|exact H]. exact (gstep_kind c g o g1 Hk E).
+Qed.
